@@ -487,6 +487,20 @@ func (x *Exec) doBinOp(st *State, in *ssa.BinOp) {
 		f := x.declareFun("bitop!"+opName, []Sort{SInt, SInt}, SInt)
 		r := App(f, SInt, a.T, b.T)
 		st.assume(x.wf(r, in.Type()))
+		// exact arithmetic meaning of the two idioms that index bit sets: for an
+		// unsigned x, x >> k is x div 2^k and x & (2^k - 1) is x mod 2^k
+		if _, signed := intBits(basic); isIntT && !signed {
+			if k, ok := intLit(b.T); ok && k >= 0 && k < 62 {
+				switch in.Op {
+				case token.SHR:
+					st.assume(Eq(r, App("div", SInt, a.T, Int(int64(1)<<uint(k)))))
+				case token.AND:
+					if m := k + 1; m&(m-1) == 0 { // k = 2^j - 1
+						st.assume(Eq(r, App("mod", SInt, a.T, Int(m))))
+					}
+				}
+			}
+		}
 		set(r)
 	default:
 		x.unsup(pos, "binary operator %s", in.Op)
